@@ -56,6 +56,34 @@ type world struct {
 	// C08: request index -> id whose next Lock by that request fails (the lock is then NOT taken)
 	lockFaults map[int]string
 	curReq     int // the request running (sequential runs)
+	// arguments the application keeps after the call returned (a queueing transport, an audit log): what they were at
+	// the call, and how to read them again later
+	kept []keptArg
+}
+
+type keptArg struct {
+	what string
+	was  string
+	live func() string
+}
+
+// keep remembers an argument handed to the application; keptTrouble reports those that changed after their call
+func (w *world) keep(what string, live func() string) {
+	w.mu.Lock()
+	w.kept = append(w.kept, keptArg{what: what, was: live(), live: live})
+	w.mu.Unlock()
+}
+
+func (w *world) keptTrouble() []interface{} {
+	w.mu.Lock()
+	defer w.mu.Unlock()
+	var out []interface{}
+	for _, k := range w.kept {
+		if now := k.live(); now != k.was {
+			out = append(out, fmt.Sprintf("%s was %s at the call and reads %s afterwards", k.what, k.was, now))
+		}
+	}
+	return out
 }
 
 func jmap(x interface{}) J {
@@ -597,6 +625,8 @@ func (t fakeTransport) Deliver(c context.Context, b []byte, to *url.URL) error {
 }
 
 func (t fakeTransport) BatchDeliver(c context.Context, b []byte, recipients []*url.URL) error {
+	t.w.keep("the payload given to BatchDeliver", func() string { return string(b) })
+	t.w.keep("the recipient list given to BatchDeliver", func() string { return fmt.Sprint(uss(recipients)) })
 	var payload interface{}
 	json.Unmarshal(b, &payload)
 	payload = stripContext(payload)
@@ -698,6 +728,7 @@ func (f fakeFed) AuthenticatePostInbox(c context.Context, w http.ResponseWriter,
 }
 
 func (f fakeFed) Blocked(c context.Context, actorIRIs []*url.URL) (bool, error) {
+	f.w.keep("the id list given to Blocked", func() string { return fmt.Sprint(uss(actorIRIs)) })
 	if f.w.call("blocked", true, uss(actorIRIs)) {
 		return false, f.w.failed()
 	}
